@@ -12,7 +12,7 @@ oracle:  model-free — every printed to_json line must (a) parse with Python's 
 """
 import collections, json, os, re, struct, subprocess
 import vlib
-from props import c01, c17
+from props import c01, c17, lowertie
 
 
 def collect(ctx):
@@ -379,6 +379,13 @@ def run(ctx):
         else:
             n_probe_ok += 1
 
+    # ---- the lowering of the attributes themselves: Model/Lower.lean (lowerAttributes = the node's tokens without the comment
+    #      tokens) on the REAL tree of every probe and of every generated program that spells its attributes, against the real
+    #      ast::lower::lower (a second, token-level model of what Model/Derive.lean attrText says on characters)
+    ltexts = [(f"c18:{pid}", "c18-attribute-probes", d["src"]) for pid, d in probes.items() if d.get("src") and pid.endswith(":direct")]
+    ltexts += [(f"c18:{pid}", "c18-generated", d["src"]) for pid, d in gen.items() if d.get("src") and "(attrs (" in d["case"]]
+    lower_cov = lowertie.run(ctx, [], ltexts, tag="attribute_lowering") if ltexts else {}
+
     # ---- hygiene against the package: a function of the package spelled like a helper the generated code calls
     helpers = {k: d for k, d in progs.items() if "helper" in d}
     hgc = c01.gocheck(ctx, [f"{pid}\t{d['stages']['go']}" for pid, d in helpers.items() if "go" in d["stages"]]) if helpers else {}
@@ -540,6 +547,8 @@ def run(ctx):
                                      "by_expectation_and_outcome": {f"{k[0]}->{k[1]}": v for k, v in sorted(probe_hist.items())}},
         "helper_hygiene_projects(library package)": {"projects": n_helper, "as_required": n_helper_ok, "model_hygienic_agrees": n_helper_tie,
                                                      "by_shape_and_outcome": {f"{k[0]}->{k[1]}": v for k, v in sorted(helper_hist.items())}},
+        "attribute_lowering_tie(Model/Lower.lean vs ast::lower on the real trees)": {k: v for k, v in lower_cov.items() if k.split("attribute_lowering_")[-1] in
+                                                                                     ("texts", "model_equals_real", "streams")},
         "corpus_and_witness_programs": {"programs": n_corpus, "ok": n_corpus_ok, "with_output_recorded_from_real_Go": n_recorded,
                                         "recorded_output_reproduced": n_recorded_ok},
         "float_%g_cross_validation": {"floats": len(floats), "same_text": n_flt_ok,
